@@ -420,15 +420,18 @@ func main() {
 	hangFrames := map[string]bool{}
 	for k, r := range results {
 		if r.hang != nil {
-			if f := fmt.Sprint(r.hang["frame"]); hangFrames[f] {
-				continue // same hang site already handled
-			} else {
-				hangFrames[f] = true
+			f := fmt.Sprint(r.hang["frame"])
+			if f == "?" {
+				f = fmt.Sprintf("?%d", len(hangFrames)%4) // unknown sites: examine up to four reports
 			}
+			if hangFrames[f] {
+				continue // same hang site already handled
+			}
+			hangFrames[f] = true
 			// a run exceeded the wall-clock watchdog: repeat it alone in a fresh
-			// process with five times the limit before calling it a hang
+			// process with twice the limit before calling it a hang
 			run := int(r.hang["hang_run"].(float64))
-			limS := int(r.hang["timeout_s"].(float64)) * 5
+			limS := int(r.hang["timeout_s"].(float64)) * 2
 			hseed, _ := strconv.ParseUint(fmt.Sprint(r.hang["seed"]), 10, 64)
 			frame := fmt.Sprint(r.hang["frame"])
 			rf := &core.ReplayFile{Property: *prop, Tier: *tier, Seed: hseed, Run: run, Harness: core.HarnessVersion,
